@@ -76,17 +76,23 @@ CLAIMED.update({
             "Machine-checked: C02_RA (for every configuration with safe_cfg, every number of cells, every schedule of writer accesses, reader accesses with any release/acquire-legal "
             "read choice, crashes at any access, restarts and new readers, with fewer than 32767 write() calls: every record a snapshot() returns is the initial zero record or cell "
             "for cell the record of one completed write() call), C02_reachable_invariant, C02_accept_is_one_completed_write, the three refutations for unsafe configurations, "
-            "C02_fenced_rejects_torn_read, C02_aba_witness (why the side condition is there: known finding C02-aba, re-found on the real code every run).",
+            "C02_fenced_rejects_torn_read. Runs of any length: C02_RA_window replaces the bound on the number of write() calls by the window condition 'no snapshot() iteration spans 32767 or "
+            "more completed publications' (the generation may wrap any number of times; C02_generation_cycle: the k-th publication stores 2*((k-1) mod 32767)+2; "
+            "C02_window_values_distinct; C02_short_runs_have_short_windows: C02_RA is the special case). C02_aba_witness shows the window condition is tight (known finding C02-aba, "
+            "re-found on the real code every run).",
             SHM_NOTE, "DESIGN.md section 6, C02"),
     "C03": ("Coq proof over the release/acquire machine (per-reader invariant 'the cached record is the record of the write() call whose even store sits at a position the reader "
             "can no longer look behind', inductive over every reader step and stable under log growth; lifted to runs by induction over the schedule) + computed examples "
             "(catch-up, wrap) + schedule correspondence of the real code with monotonicity/freshness oracles incl. jumps across the 16-bit wrap and readers that skip >= 16384 publications",
             "Machine-checked: C03_monotone_RA and C03_later_call_never_older (same quantification as C02_RA: every safe configuration, every schedule, every release/acquire-legal read "
-            "choice, crashes, restarts, fewer than 32767 write() calls: the publication numbers one reader obtains never decrease), C03_cache_changes_only_on_accept, C03_accept_condition. "
+            "choice, crashes, restarts, fewer than 32767 write() calls: the publication numbers one reader obtains never decrease), C03_monotone_RA_window / C03_later_call_never_older_window "
+            "(runs of any length under the window condition of C02_RA_window), C03_cache_changes_only_on_accept, C03_accept_condition. "
             "Second half: C03_fresh_when_idle - for every reachable state (any schedule, any legal read choices before the call, crashes, restarts, readers attached at any time, any "
             "number of publications: no bound, the 16-bit wrap included), if the latest generation event is the even store of write() call a (no update in flight) and the reader is "
             "between calls, a call that executes sequentially consistently while the writer does nothing returns within cells+4 accesses the record of call a, and serves the cache only "
-            "when the live generation equals the cached one (the documented exception, shown real by C03_exception_witness); C03_latest_even_is_newest, "
+            "when the live generation equals the cached one; C03_fresh_exact states the exception exactly (history of any length under the window condition): the call returns the newest "
+            "publication - freshly read or already cached - unless the cached record was accepted from an even store a positive multiple of 32767 publications before the newest one "
+            "(shown real by C03_exception_witness); the generated Current_C03.v proves the side conditions for the configuration measured from the running code; C03_latest_even_is_newest, "
             "C03_idle_segment_holds_latest_record, C03_reachable_invariant_unbounded. Freshness is stated for sequentially consistent calls (release/acquire alone gives no real-time "
             "guarantee without a happens-before edge from the publication to the call); an update racing with the call is covered by monotonicity only.",
             SHM_NOTE, "DESIGN.md section 6, C03"),
